@@ -72,9 +72,39 @@ def lit(v):
     return str(v)
 
 
+# a table with every numeric column type (the other tables only have INT columns), NULLs, several chunks / row-sets
+NUM_TABLE = "create table n(g int, si smallint, bi bigint, d double)"
+NUM_ROWS = ["insert into n values (1, 1, 10000000000, 1.5), (1, 2, 20000000000, 2.5), (2, 3, 1, 0.5)",
+            "insert into n values (2, null, null, null), (1, -5, -7, -1.5), (3, null, null, null)",
+            "insert into n values (2, 7, 9, 4.0), (4, 1, 1, 1.0)"]
+
+
+def typed_queries():
+    qs = []
+    for col in ("si", "bi", "d", "g"):
+        for agg in ("sum", "min", "max", "count"):
+            qs.append((f"select {agg}({col}) from n", "typed-agg"))
+            qs.append((f"select g, {agg}({col}) from n group by g", "typed-agg"))
+            qs.append((f"select g, {agg}({col}) from n where g < 3 group by g", "typed-agg"))
+            qs.append((f"select {agg}({col}) from n where g > 100", "typed-agg"))
+            qs.append((f"select g, {col}, {agg}({col}) over (partition by g) from n", "window"))
+        qs.append((f"select count(distinct {col}) from n", "typed-agg"))
+        qs.append((f"select g, sum({col}), count({col}), min({col}), max({col}) from n group by g", "typed-agg"))
+        qs.append((f"select sum({col} + 1), sum({col} * 2) from n", "typed-agg"))
+        qs.append((f"select {col} from n where {col} > 1 order by {col}", "typed-agg"))
+        qs.append((f"select n.g, t1.a from n join t1 on n.{col} = t1.a", "typed-join"))
+    qs.append(("select sum(si), sum(bi), sum(d) from n", "typed-agg"))
+    qs.append(("select g, sum(si + bi), max(d + si) from n group by g", "typed-agg"))
+    qs.append(("select x.g, y.g from n x join n y on x.si = y.bi", "typed-join"))
+    qs.append(("select x.g, y.g from n x left join n y on x.d = y.si", "typed-join"))
+    qs.append(("select sum(a) over (), a from t1", "window"))
+    qs.append(("select a, b, sum(b) over (), count(*) over () from t1", "window"))
+    return qs
+
+
 def setup_sql(schema, tables, split):
     """CREATE + INSERT statements; with split=True every row gets its own INSERT (several row-sets)."""
-    stmts = list(SCHEMAS[schema])
+    stmts = list(SCHEMAS[schema]) + [NUM_TABLE] + NUM_ROWS
     for t, rows in tables.items():
         if not rows:
             continue
@@ -218,6 +248,9 @@ def queries(tier):
     out.append(q("select a, (select count(*) from t2 where t2.a = t1.a) from t1", feat=["subquery", "scalar-correlated"], level=2))
     out.append(q("select a, (select max(c) from t2) from t1", feat=["subquery", "scalar"], level=2))
     out.append(q("select a from t1 where b > (select count(*) from t2 where t2.a = t1.a)", feat=["subquery", "scalar-correlated"], level=2))
+    # every numeric column type: aggregates, GROUP BY, windows, joins on keys of different numeric types
+    for (sql, feat) in typed_queries():
+        out.append(q(sql, feat=[feat], level=2))
     # derived tables
     out.append(q("select * from (select a, b from t1 order by a, b limit 2) s where a > 0", feat=["derived", "limit"], level=2))
     out.append(q("select * from (select a, b from t1 order by a, b limit 2 offset 1) s where b > 1", feat=["derived", "limit"], level=2))
